@@ -61,6 +61,8 @@ type Control struct {
 	CloseFn func()
 	// StartFn launches a request that the schedule has not started yet.
 	StartFn func(rid string)
+	// CancelFn makes the caller of a request go away (cancels its context).
+	CancelFn func(rid string)
 	// Blocked records "rid blocked on lock held by rid" observations.
 	Blocked []string
 }
@@ -382,6 +384,15 @@ func (c *Control) RunSchedule(tokens []Token) SchedResult {
 	}
 tokenLoop:
 	for _, t := range tokens {
+		if t.Site == "cancel" {
+			// the caller of this request goes away now (wherever the request is parked)
+			if c.waitStable(to) && c.CancelFn != nil {
+				c.CancelFn(t.Rid)
+				// give the request's own goroutine a moment to notice (a request that does not look at its context notices nothing)
+				time.Sleep(30 * time.Millisecond)
+			}
+			continue
+		}
 		if t.Site == "start" {
 			c.mu.Lock()
 			c.startLocked(t.Rid)
